@@ -242,12 +242,28 @@ func (s *Store) Flush() error {
 	if s.file == nil {
 		return errors.New("no file / in-memory only, so cannot Flush()")
 	}
-	coll := *s.getColl()
-	rnls := map[string]*rootNodeLoc{}
-	cnames := collNames(coll)
-	for _, name := range cnames {
-		c := coll[name]
-		rnls[name] = c.rootAddRef()
+	var coll map[string]*Collection
+	var rnls map[string]*rootNodeLoc
+	var cnames []string
+	for pinned := false; !pinned; {
+		coll = *s.getColl()
+		rnls = map[string]*rootNodeLoc{}
+		cnames = collNames(coll)
+		pinned = true
+		for _, name := range cnames {
+			// The mutator may have replaced or removed the collection since
+			// the map was fetched: its handle is then closed.  Start over
+			// with the current map.
+			if rnls[name] = coll[name].rootAddRefOpen(); rnls[name] == nil {
+				for _, done := range cnames {
+					if rnls[done] != nil {
+						coll[done].rootDecRef(rnls[done])
+					}
+				}
+				pinned = false
+				break
+			}
+		}
 	}
 	defer func() {
 		for _, name := range cnames {
